@@ -36,6 +36,7 @@ def units(text):
 
 def main():
     b, o, t, outp = sys.argv[1:5]
+    skip = set(sys.argv[5:])
     B, bt = units(open(b).read()); O, ot = units(open(o).read()); T, tt = units(open(t).read())
     Bd = dict((k, v) for k, v in B); Od = dict((k, v) for k, v in O); Td = dict((k, v) for k, v in T)
     result = [list(u) for u in O]
@@ -47,6 +48,8 @@ def main():
             if v != Bd[k]:
                 if k in Od and Od[k] == Bd[k]:
                     result[keys.index(k)][1] = v
+                elif k in Od and Od[k] != v and k in skip:
+                    review.append(k + ' (SKIPPED: ours kept)')
                 elif k in Od and Od[k] != v:
                     with tempfile.TemporaryDirectory() as d:
                         for nm, tx in (('b', Bd[k]), ('o', Od[k]), ('t', v)):
@@ -55,9 +58,10 @@ def main():
                         if r.returncode == 0:
                             result[keys.index(k)][1] = r.stdout
                         else:
-                            r2 = subprocess.run(['git', 'merge-file', '-p', '--union', os.path.join(d, 'o'), os.path.join(d, 'b'), os.path.join(d, 't')], capture_output=True, text=True)
-                            result[keys.index(k)][1] = r2.stdout
-                            review.append(k)
+                            # keep ours; write the conflict for manual resolution
+                            cf = '/tmp/conflict_%s.py' % k.replace(' ', '_')
+                            open(cf, 'w').write(r.stdout)
+                            review.append(k + ' (CONFLICT: ours kept, see %s)' % cf)
     for k in Bd:
         if k not in Td and k in Od and Od[k] == Bd[k]:
             i = keys.index(k); del result[i]; del keys[i]
